@@ -129,6 +129,13 @@ Theorem C09_refuses_length : forall f hi lo body,
 Proof. exact dec_frame_length. Qed.
 Print Assumptions C09_refuses_length.
 
+(* ... stated over ALL octet strings and therefore every function code, known or not, and every
+   table / payload shape: whenever octets 2-3 do not spell the datagram's octet count, refusal *)
+Theorem C09_refuses_length_any : forall bs,
+  nth 2 bs 0 * 256 + nth 3 bs 0 <> lenN bs -> dec_frame bs = Err DecodingError.
+Proof. exact dec_frame_length_any. Qed.
+Print Assumptions C09_refuses_length_any.
+
 (* ... datagrams too short to hold a header are refused ... *)
 Theorem C09_refuses_short : forall bs, (length bs < 4)%nat -> dec_frame bs = Err DecodingError.
 Proof. exact dec_frame_short. Qed.
